@@ -163,6 +163,186 @@ theorem unroot_noSingle (t : T) (h : t.noSingle = true) : (unroot t).noSingle = 
       exact ⟨h12, h21, h22⟩
   · exact h
 
+theorem leavesL_kids_sublist_leaves (c : T) : (leavesL c.kids).Sublist c.leaves := by
+  obtain ⟨d, p, k⟩ := c
+  cases k with
+  | nil => simp [leavesL]
+  | cons a l => simp [T.leaves]
+
+theorem leaves_sublist_of_getElem : ∀ (k : Kids) (i : Nat) (e : EdgeD) (c : T), k[i]? = some (e, c) →
+    c.leaves.Sublist (leavesL k)
+  | [], i, e, c, h => by simp at h
+  | (e', t) :: r, 0, e, c, h => by
+    simp only [List.getElem?_cons_zero, Option.some.injEq, Prod.mk.injEq] at h
+    obtain ⟨_, rfl⟩ := h
+    simp only [leavesL]
+    exact List.sublist_append_left _ _
+  | (e', t) :: r, i + 1, e, c, h => by
+    simp only [List.getElem?_cons_succ] at h
+    simp only [leavesL]
+    exact (leaves_sublist_of_getElem r i e c h).trans (List.sublist_append_right _ _)
+
+theorem unroot_rootFree (t : T) (h : t.noSingle = true) : RootFree (unroot t) := by
+  refine ⟨unroot_noSingle t h, ?_⟩
+  unfold unroot
+  split
+  · rename_i d p e1 d1 p1 k1 e2 d2 p2 k2
+    simp only [T.noSingle, T.kids_node, noSingleL, noSingleBelow_node, Bool.and_true, Bool.and_eq_true,
+      bne_iff_ne, ne_eq] at h
+    obtain ⟨⟨h11, _⟩, h21, _⟩ := h
+    by_cases h1 : k1.isEmpty = true
+    · simp only [h1, if_true, T.kids_node, List.length_append, List.length_cons, List.length_nil]
+      omega
+    · simp only [h1, Bool.false_eq_true, if_false, T.kids_node, List.length_append, List.length_cons,
+        List.length_nil]
+      omega
+  · rename_i hne
+    intro h2
+    obtain ⟨d, p, k⟩ := t
+    simp only [T.kids_node] at h2
+    match k, h2 with
+    | [(e1, .node d1 p1 k1), (e2, .node d2 p2 k2)], _ => exact hne d p e1 d1 p1 k1 e2 d2 p2 k2 rfl
+
+/-- cutting the branch to kid `r` of a tree that satisfies the fold invariant -/
+theorem cutAt_noSingle {tn t' : T} {r : Nat} {e : EdgeD} {c : T} {ea eb : EdgeD} {b : Bool}
+    (hk : tn.kids[r]? = some (e, c)) (h : cutAt tn r ea eb b = some t') (hf : RootFree tn) :
+    t'.noSingle = true := by
+  rw [cutAt_eq tn r ea eb b e c hk] at h
+  have := (Option.some.inj h).symm
+  subst this
+  obtain ⟨hns, h2⟩ := hf
+  have hi : r < tn.kids.length := by
+    rcases Nat.lt_or_ge r tn.kids.length with h | h
+    · exact h
+    · rw [List.getElem?_eq_none h] at hk; cases hk
+  have hc : c.noSingleBelow = true := by
+    simp only [T.noSingle] at hns
+    rw [noSingleL_eq_all] at hns
+    exact (List.all_eq_true.mp hns) _ (List.mem_of_getElem? hk)
+  have hc' : (T.node c.d c.kids.length c.kids).noSingleBelow = true := by
+    obtain ⟨dc, pc, kc⟩ := c
+    simpa [noSingleBelow_node] using hc
+  have ha : (T.node tn.d (tn.kids.length - 1) (tn.kids.eraseIdx r)).noSingleBelow = true := by
+    rw [noSingleBelow_node]
+    simp only [Bool.and_eq_true, bne_iff_ne, ne_eq]
+    refine ⟨?_, noSingleL_of_sublist (List.eraseIdx_sublist _ _) hns⟩
+    rw [List.length_eraseIdx_of_lt hi]; omega
+  cases b <;> simp [T.noSingle, noSingleL, ha, hc']
+
+/-- `RerootOutGroup`: what the model does once the plan is made -/
+theorem outgroup_noSingle {t t' : T} {remove strict : Bool} {S : List String}
+    (h : rerootOutGroup remove strict S t = .ok t') (hns : t.noSingle = true) : t'.noSingle = true := by
+  unfold rerootOutGroup rerootOutGroupWith at h
+  obtain ⟨pl, hpl, h⟩ := Res.bind_ok h
+  obtain ⟨ec, hec, h⟩ := Res.bind_ok h
+  obtain ⟨e, c⟩ := ec
+  have hk := ofOption_ok_panic hec
+  obtain ⟨spath, _, _, _, hts, _, _, _, htn, _⟩ := outgroupPlan_ok hpl
+  have hf1 : RootFree pl.ts := by rw [hts]; exact rerootP_rootFree _ _ _ _ (unroot_rootFree t hns)
+  have hf : RootFree pl.tn := by
+    have : pl.tn = (rerootP pl.ts pl.f.p none (rerootP (unroot t) spath none []).2.2).1 := by rw [← htn]
+    rw [this]; exact rerootP_rootFree _ _ _ _ hf1
+  cases remove with
+  | true =>
+    simp only [if_true] at h
+    split at h
+    · cases h
+    · simp only [Res.ok.injEq] at h
+      subst h
+      have hc : c.noSingleBelow = true := by
+        have := hf.1
+        simp only [T.noSingle] at this
+        rw [noSingleL_eq_all] at this
+        exact (List.all_eq_true.mp this) _ (List.mem_of_getElem? hk)
+      obtain ⟨dc, pc, kc⟩ := c
+      rw [noSingleBelow_node] at hc
+      simp only [Bool.and_eq_true] at hc
+      simpa [T.noSingle] using hc.2
+  | false =>
+    simp only [Bool.false_eq_true, if_false] at h
+    exact cutAt_noSingle hk (ofOption_ok_panic h) hf
+
+/-- with removal: the tips left are tips of the input, each once -/
+theorem outgroup_remove_nodup {t t' : T} {strict : Bool} {S : List String}
+    (h : rerootOutGroup true strict S t = .ok t') (hu : t.tipNames.Nodup) : t'.tipNames.Nodup := by
+  unfold rerootOutGroup rerootOutGroupWith at h
+  obtain ⟨pl, hpl, h⟩ := Res.bind_ok h
+  obtain ⟨ec, hec, h⟩ := Res.bind_ok h
+  obtain ⟨e, c⟩ := ec
+  have hk := ofOption_ok_panic hec
+  obtain ⟨spath, _, _, _, hts, _, _, _, htn, _⟩ := outgroupPlan_ok hpl
+  have htips : pl.tn.tipNames.Perm t.tipNames := by
+    have : pl.tn = (rerootP pl.ts pl.f.p none (rerootP (unroot t) spath none []).2.2).1 := by rw [← htn]
+    rw [this, hts]
+    exact ((rerootP_tips _ _ _ _).trans (rerootP_tips _ _ _ _)).trans (unroot_tips t)
+  simp only [if_true] at h
+  split at h
+  · cases h
+  · rename_i h2
+    simp only [Res.ok.injEq] at h
+    subst h
+    have hlen : (c.kids.length == 1) = false := by simp; omega
+    have h1 : (T.node c.d 0 c.kids).tipNames = leavesL c.kids := by
+      simp [T.tipNames, hlen]
+    rw [h1]
+    have hsub : (leavesL c.kids).Sublist pl.tn.tipNames :=
+      ((leavesL_kids_sublist_leaves c).trans (leaves_sublist_of_getElem _ _ e c hk)).trans
+        (by unfold T.tipNames; exact List.sublist_append_right _ _)
+    exact hsub.nodup (htips.nodup_iff.mpr hu)
+
+/- ## RerootMidPoint keeps "no single-child node" -/
+
+theorem cutAt_some {t u : T} {r : Nat} {ea eb : EdgeD} {b : Bool} (h : cutAt t r ea eb b = some u) :
+    ∃ e c, t.kids[r]? = some (e, c) := by
+  obtain ⟨d, p, kids⟩ := t
+  simp only [cutAt] at h
+  cases hk : kids[r]? with
+  | none => simp [hk] at h
+  | some x => exact ⟨x.1, x.2, by simpa using hk⟩
+
+theorem bestCand_rootFree (t1 : T) (h1 : RootFree t1) : ∀ (ps : List (List Nat)) (best : Option Cand) (cur : Rat)
+    (cand : Cand), (∀ b, best = some b → RootFree b.tT) → bestCand t1 ps best cur = some cand → RootFree cand.tT
+  | [], best, cur, cand, hb, h => by
+    simp only [bestCand] at h
+    exact hb cand h
+  | p :: ps, best, cur, cand, hb, h => by
+    simp only [bestCand] at h
+    split at h
+    · refine bestCand_rootFree t1 h1 ps _ _ cand ?_ h
+      intro b hbe
+      simp only [Option.some.injEq] at hbe
+      subst hbe
+      exact rerootP_rootFree _ _ _ _ h1
+    · exact bestCand_rootFree t1 h1 ps best cur cand hb h
+
+theorem midpointCut_noSingle {cand : Cand} {u : T} (h : midpointCut true cand = .ok u)
+    (hf : RootFree cand.tT) : u.noSingle = true := by
+  unfold midpointCut at h
+  simp only [Bool.not_true, Bool.false_and, Bool.false_eq_true, if_false] at h
+  split at h
+  · cases h
+  · split at h
+    · cases h
+    · split at h
+      · rename_i u' hc
+        simp only [Res.ok.injEq] at h
+        subst h
+        obtain ⟨e, c, hk⟩ := cutAt_some hc
+        exact cutAt_noSingle hk hc (rerootP_rootFree _ _ _ _ hf)
+      · cases h
+
+theorem midpoint_noSingle {t t' : T} (h : rerootMidPoint t = .ok t') (hns : t.noSingle = true) :
+    t'.noSingle = true := by
+  unfold rerootMidPoint rerootMidPointWith at h
+  simp only [midpointFarEndFixedInRepo] at h
+  split at h
+  · cases h
+  · split at h
+    · simp at h
+    · rename_i cand hb
+      exact midpointCut_noSingle h
+        (bestCand_rootFree _ (unroot_rootFree t hns) _ none 0 cand (fun b hbe => by cases hbe) hb)
+
 /- ## SortNeighborsByTips -/
 
 theorem tipNames_of (hname : (u : T).name = (t : T).name) (hlen : u.kids.length = t.kids.length)
@@ -310,25 +490,6 @@ theorem binary_noSingle (t : T) (h : t.binary = true) : t.noSingle = true := by
   exact binaryL_noSingleL _ h.2
 
 /- ## SubTree: the leaves below a node are a sublist of the leaves of the tree -/
-
-theorem leavesL_kids_sublist_leaves (c : T) : (leavesL c.kids).Sublist c.leaves := by
-  obtain ⟨d, p, k⟩ := c
-  cases k with
-  | nil => simp [leavesL]
-  | cons a l => simp [T.leaves]
-
-theorem leaves_sublist_of_getElem : ∀ (k : Kids) (i : Nat) (e : EdgeD) (c : T), k[i]? = some (e, c) →
-    c.leaves.Sublist (leavesL k)
-  | [], i, e, c, h => by simp at h
-  | (e', t) :: r, 0, e, c, h => by
-    simp only [List.getElem?_cons_zero, Option.some.injEq, Prod.mk.injEq] at h
-    obtain ⟨_, rfl⟩ := h
-    simp only [leavesL]
-    exact List.sublist_append_left _ _
-  | (e', t) :: r, i + 1, e, c, h => by
-    simp only [List.getElem?_cons_succ] at h
-    simp only [leavesL]
-    exact (leaves_sublist_of_getElem r i e c h).trans (List.sublist_append_right _ _)
 
 theorem nodeAt_sublist : ∀ (p : List Nat) (t n : T), Gotree.C15.nodeAt t p = some n →
     (leavesL n.kids).Sublist (leavesL t.kids) ∧ (noSingleL t.kids = true → noSingleL n.kids = true)
